@@ -1,3 +1,44 @@
-From RainV Require Import Lib Paths.
-Theorem C07_placeholder : True. Proof. exact I. Qed.
-Print Assumptions C07_placeholder.
+(* C07 — path confinement.  Property theorems only. *)
+From RainV Require Import Lib Paths PathsProofs.
+
+(* Every file of every accepted torrent (any name bytes, any path-component bytes, single- or
+   multi-file) is opened at or below the data directory: the opened path is the data
+   directory's components followed by components that are none of "", ".", ".." and contain no
+   separator -- whatever the data directory (absolute, clean), so with and without the
+   torrent-id level. *)
+Theorem C07_accepted_files_stay_below : forall name files js rs,
+  accept_paths true name files = Some js -> Forall normal rs ->
+  Forall (fun j => exists l, Forall normal l /\ open_path (render true rs) j = render true (rs ++ l)) js.
+Proof. exact accepted_files_stay_below. Qed.
+Print Assumptions C07_accepted_files_stay_below.
+
+(* string-level reading: strictly below means the prefix "<dest>/" *)
+Theorem C07_open_path_prefix : forall rs l, Forall normal rs -> Forall normal l -> rs <> [] -> l <> [] ->
+  has_prefix (render true rs ++ [slash]) (open_path (render true rs) (render false l)) = true.
+Proof. exact open_path_prefix. Qed.
+Print Assumptions C07_open_path_prefix.
+
+(* two different non-padding files never resolve to the same path: accepted joined paths are
+   pairwise distinct, and distinct joined paths open distinct files *)
+Theorem C07_accepted_paths_distinct : forall name f fs js,
+  accept_paths true name (f :: fs) = Some js -> NoDup (nonpad_paths js (f :: fs)).
+Proof. exact accepted_paths_distinct. Qed.
+Print Assumptions C07_accepted_paths_distinct.
+
+Theorem C07_open_path_injective : forall rs l1 l2, Forall normal rs -> Forall normal l1 -> Forall normal l2 ->
+  open_path (render true rs) (render false l1) = open_path (render true rs) (render false l2) -> l1 = l2.
+Proof. exact open_path_injective. Qed.
+Print Assumptions C07_open_path_injective.
+
+(* no archive entry is extracted outside its (absolute) destination directory *)
+Theorem C07_tar_confined : forall dir e t, is_rooted dir = true -> tar_target dir e = Some t ->
+  exists k0 l, clean dir = render true k0 /\ t = render true (k0 ++ l) /\
+               Forall normal (k0 ++ l) /\ l <> [].
+Proof. exact tar_confined. Qed.
+Print Assumptions C07_tar_confined.
+
+(* the pinned code accepted the name ".." and produced an escaping path *)
+Theorem C07_confinement_refuted_on_pinned_code :
+  accept_paths false dotdot [([[98]], false)] = Some [[46;46;47;98]].
+Proof. exact accept_paths_dotdot_pinned. Qed.
+Print Assumptions C07_confinement_refuted_on_pinned_code.
